@@ -6,6 +6,7 @@ import (
 	"sync"
 	"sync/atomic"
 	"time"
+	"unicode/utf8"
 
 	"github.com/cespare/xxhash/v2"
 	"github.com/ozontech/file.d/xtime"
@@ -56,6 +57,7 @@ func newHeldMetricsStore[T prometheus.Metric](metricMaxLabelValueLength int) *he
 
 func (h *heldMetricsStore[T]) GetOrCreate(labels []string, newPromMetric func(...string) T) *heldMetric[T] {
 	h.truncateLabels(labels)
+	sanitizeLabels(labels)
 	hash := computeStringsHash(labels)
 	// fast path - metric exists
 	h.mu.RLock()
@@ -70,6 +72,7 @@ func (h *heldMetricsStore[T]) GetOrCreate(labels []string, newPromMetric func(..
 
 func (h *heldMetricsStore[T]) Delete(labels []string, deleter metricDeleter) bool {
 	h.truncateLabels(labels)
+	sanitizeLabels(labels)
 	hash := computeStringsHash(labels)
 
 	h.mu.Lock()
@@ -171,6 +174,16 @@ func (h *heldMetricsStore[T]) truncateLabels(lvs []string) {
 	for i, label := range lvs {
 		if len(label) > h.metricMaxLabelValueLength {
 			lvs[i] = label[:h.metricMaxLabelValueLength]
+		}
+	}
+}
+
+// sanitizeLabels makes label values valid UTF-8. They are often taken from event fields, and
+// truncateLabels may cut a value inside a rune; prometheus panics on a value that is not valid UTF-8.
+func sanitizeLabels(lvs []string) {
+	for i, label := range lvs {
+		if !utf8.ValidString(label) {
+			lvs[i] = strings.ToValidUTF8(label, string(utf8.RuneError))
 		}
 	}
 }
